@@ -6,7 +6,7 @@
    the verdict the scenario prescribes; End only where the machine can end, with the code,
    object and content that Layers!Read defines.  The first non-conforming event of a call is
    printed (mismatch record) and the rest of that call skipped.                             *)
-EXTENDS Layers, Json, IOUtils, TLC
+EXTENDS Security, Json, IOUtils, TLC
 Tr == ndJsonDeserialize(IOEnv.TRACE)
 VARIABLES l, tree, faults, pos, failed, diverged
 vars == <<l, tree, faults, pos, failed, diverged>>
@@ -24,9 +24,17 @@ TBegin == /\ IsEvent("begin")
                        mshape |-> MShape(Tr[l].shp), dshape |-> DShape(Tr[l].shp)]
                  fl == Tr[l].faults IN          \* list of [f, x]
              /\ tree' = t
-             /\ faults' = [f \in AllFiles(t) |->
+             \* explicit faults (callback verdicts, malformed content) + restrictions: the violations are
+             \* computed HERE from the logged file attributes and the flags in force (Security!Violations)
+             /\ LET al == Tr[l].attrs
+                    at == [f \in AllFiles(t) |->
+                             LET hit == {i \in 1..Len(al) : al[i].f = <<f.l, f.r>>} IN
+                             IF hit = {} THEN [own |-> "ok", grp |-> "ok", link |-> FALSE]
+                             ELSE LET a == al[CHOOSE i \in hit : TRUE] IN [own |-> a.own, grp |-> a.grp, link |-> a.link]]
+                    sec == FaultsOf(t, at, Tr[l].flags) IN
+                faults' = [f \in AllFiles(t) |->
                              LET hit == {i \in 1..Len(fl) : fl[i].f = <<f.l, f.r>>} IN
-                             IF hit = {} THEN "none" ELSE fl[CHOOSE i \in hit : TRUE].x]
+                             (IF hit = {} THEN {} ELSE Seq2Set(fl[CHOOSE i \in hit : TRUE].x)) \cup sec[f]]
           /\ pos' = 0 /\ failed' = FALSE /\ diverged' = FALSE
 
 K == Consulted(tree)
@@ -37,8 +45,8 @@ TCallback == /\ IsEvent("callback")
              /\ IF diverged THEN UNCHANGED <<pos, failed, diverged>>
                 ELSE IF failed \/ pos >= Len(K)
                 THEN diverged' = TRUE /\ UNCHANGED <<pos, failed>> /\ Mismatch([no_callback_expected |-> TRUE])
-                ELSE LET f == K[pos + 1]  x == faults[f]  v == (x # "reject") IN
-                     IF SecurityFault(x)     \* refused by a restriction before the callback is asked
+                ELSE LET f == K[pos + 1]  x == faults[f]  v == ("reject" \notin x) IN
+                     IF RefusedBeforeCallback(x)     \* refused by a restriction before the callback is asked
                      THEN diverged' = TRUE /\ UNCHANGED <<pos, failed>> /\ Mismatch([refused_before_callback |-> <<f.l, f.r>>])
                      ELSE IF Tr[l].f = <<f.l, f.r>> /\ Tr[l].verdict = v /\ Tr[l].data_ok
                      THEN pos' = pos + 1 /\ failed' = ~v /\ UNCHANGED diverged
@@ -49,10 +57,10 @@ EntSet(c) == {Ent(p[1], p[2], MapOf(c)[p]) : p \in DOMAIN MapOf(c)}
 TEnd == /\ IsEvent("end")
         /\ UNCHANGED <<tree, faults, pos, failed>>
         /\ IF diverged THEN UNCHANGED diverged
-           ELSE LET w == Want
-                    okpos == Len(w.log) = pos                      \* every expected callback happened
-                    okrc  == Tr[l].rc = w.rc
-                    okobj == IF w.rc = "ECONF_SUCCESS" THEN Tr[l].has_obj ELSE ~Tr[l].has_obj
+           ELSE LET w == Want    \* heap_ok (C20): after the caller released every valid handle nothing stays allocated
+                    okpos == ~Tr[l].cbused \/ Len(w.log) = pos     \* every expected callback happened (callback entry points)
+                    okrc  == Tr[l].rc \in w.rcs
+                    okobj == (IF w.rc = "ECONF_SUCCESS" THEN Tr[l].has_obj ELSE ~Tr[l].has_obj) /\ Tr[l].heap_ok
                     okcfg == \/ w.rc # "ECONF_SUCCESS"
                              \/ Tr[l].kind = "cfg" /\ Seq2Set(Tr[l].ents) = EntSet(w.cfg)
                              \* C06 proper: what is visible stems from files the callback accepted (used for
